@@ -13,6 +13,7 @@ import (
 	"encoding/binary"
 	"encoding/hex"
 	"encoding/json"
+	"encoding/xml"
 	"errors"
 	"flag"
 	"fmt"
@@ -80,6 +81,23 @@ func (b *Blob) Unmarshal(data []byte) error { // also the rpc.Code interface's n
 	}
 	b.B = data[1+k : 1+k+int(l)] // aliases the input, like generated code with byte fields
 	return nil
+}
+
+// --- encoding/xml: bytes as hex text (XML character data cannot carry arbitrary bytes)
+func (b *Blob) MarshalXML(e *xml.Encoder, start xml.StartElement) error {
+	return e.EncodeElement(hex.EncodeToString(b.B), start)
+}
+func (b *Blob) UnmarshalXML(d *xml.Decoder, start xml.StartElement) error {
+	var s string
+	if err := d.DecodeElement(&s, &start); err != nil {
+		return err
+	}
+	x, err := hex.DecodeString(s)
+	b.B = x
+	if len(x) == 0 {
+		b.B = nil
+	}
+	return err
 }
 
 // --- msgp style
@@ -306,31 +324,33 @@ func (s *StressSvc) EchoCode(req *blobCode, res *blobCode) error {
 
 // StressCfg is one configuration.
 type StressCfg struct {
-	Name       string `json:"name"`
-	Network    string `json:"network"` // unix tcp http inproc frag ws
-	TLS        bool   `json:"tls"`
-	Header     string `json:"header"` // "" (default) pb json code
-	Codec      string `json:"codec"`  // json xml pb code msgp alias
-	ByName     bool   `json:"byname"` // configure through names (Options.Codec / HeaderEncoder) instead of constructors
-	Poll       bool   `json:"poll"`
-	SrvPipe    bool   `json:"srvpipe"`
-	SrvDirect  bool   `json:"srvdirect"`
-	CtxBuf     bool   `json:"ctxbuf"`
-	NoCopy     bool   `json:"nocopy"`
-	CliPipe    bool   `json:"clipipe"`
-	CliDirect  bool   `json:"clidirect"`
-	BufSize    int    `json:"bufsize"`
-	Conns      int    `json:"conns"`
-	Callers    int    `json:"callers"`
-	Calls      int    `json:"calls"`
-	Seed       int64  `json:"seed"`
-	Sizes      []int  `json:"sizes"`
-	FailEvery  int    `json:"failevery"`
-	Frag       int    `json:"frag"`
-	Readers    int    `json:"readers"`
-	Forms      string `json:"forms"` // subset of "call,go,ctx,rt"
-	DelayUs    int    `json:"delayus"`
-	OneAtATime bool   `json:"oneatatime"`
+	Name       string  `json:"name"`
+	Network    string  `json:"network"` // unix tcp http inproc frag ws
+	TLS        bool    `json:"tls"`
+	Header     string  `json:"header"` // "" (default) pb json code
+	Codec      string  `json:"codec"`  // json xml pb code msgp alias
+	ByName     bool    `json:"byname"` // configure through names (Options.Codec / HeaderEncoder) instead of constructors
+	Poll       bool    `json:"poll"`
+	SrvPipe    bool    `json:"srvpipe"`
+	SrvDirect  bool    `json:"srvdirect"`
+	CtxBuf     bool    `json:"ctxbuf"`
+	NoCopy     bool    `json:"nocopy"`
+	CliPipe    bool    `json:"clipipe"`
+	CliDirect  bool    `json:"clidirect"`
+	BufSize    int     `json:"bufsize"`
+	Conns      int     `json:"conns"`
+	Callers    int     `json:"callers"`
+	Calls      int     `json:"calls"`
+	Seed       int64   `json:"seed"`
+	Sizes      []int   `json:"sizes"`
+	FailEvery  int     `json:"failevery"`
+	Frag       int     `json:"frag"`
+	Readers    int     `json:"readers"`
+	Forms      string  `json:"forms"` // subset of "call,go,ctx,rt"
+	DelayUs    int     `json:"delayus"`
+	OneAtATime bool    `json:"oneatatime"`
+	CtxCases   [][]int `json:"ctxcases"` // [cap, len, 1 if the model places the reply in the caller's buffer]: run after the workload (C11/C19)
+	Retain     bool    `json:"retain"`   // user code keeps what it was handed and re-checks it after further traffic (C11)
 }
 
 type StressResult struct {
@@ -426,6 +446,7 @@ func runStress(c StressCfg) StressResult {
 	forms := strings.Split(c.Forms, ",")
 	svc := newStressSvc()
 	svc.delayNs = int64(c.DelayUs) * 1000
+	svc.retain = c.Retain && !c.NoCopy
 	server := rpc.NewServer()
 	server.SetLogLevel(rpc.OffLogLevel)
 	server.RegisterName("S", svc)
@@ -504,6 +525,9 @@ func runStress(c StressCfg) StressResult {
 	}
 	var omu sync.Mutex
 	var outcomes []outcome
+	var keptReplies [][]byte
+	var keptCopies, keptErrTxt []string
+	var keptErrs []error
 	var seqc int64
 	record := func(w wcall, err error, got []byte, sent []byte) {
 		o := outcome{w: w, when: atomic.AddInt64(&seqc, 1)}
@@ -529,6 +553,16 @@ func runStress(c StressCfg) StressResult {
 		}
 		omu.Lock()
 		outcomes = append(outcomes, o)
+		if c.Retain {
+			if err == nil && len(got) > 0 {
+				keptReplies = append(keptReplies, got)
+				keptCopies = append(keptCopies, string(got))
+			}
+			if err != nil {
+				keptErrs = append(keptErrs, err)
+				keptErrTxt = append(keptErrTxt, string(append([]byte(nil), err.Error()...)))
+			}
+		}
 		omu.Unlock()
 	}
 	methods := []string{"Echo", "EchoCtx", "EchoRet"}
@@ -558,6 +592,7 @@ func runStress(c StressCfg) StressResult {
 					if c.CliPipe && c.Callers == 1 {
 						w.Form = "go" // order is promised to asynchronous calls of one goroutine
 					}
+					flush := r.Intn(3) == 0 // drawn for every call so that the workload does not depend on the configuration
 					sent := w.payload(c.Seed)
 					sentMu.Lock()
 					sentCount[string(sent)]++
@@ -569,8 +604,38 @@ func runStress(c StressCfg) StressResult {
 						err := cn.Call(method(w), args, reply)
 						record(w, err, get(), sent)
 					case "ctx":
-						err := cn.CallWithContext(context.Background(), method(w), args, reply)
-						record(w, err, get(), sent)
+						cctx := context.Background()
+						var cbuf []byte
+						if c.Retain {
+							// a caller-supplied context buffer around the reply size, with guard bytes behind it
+							capv := []int{0, w.Size - 1, w.Size, w.Size + 1, w.Size + 4096}[r.Intn(5)]
+							if capv < 0 {
+								capv = 0
+							}
+							cbuf = make([]byte, capv+32)
+							for k := range cbuf {
+								cbuf[k] = 0xEE
+							}
+							cctx = context.WithValue(cctx, rpc.BufferContextKey, cbuf[:0:capv])
+						}
+						err := cn.CallWithContext(cctx, method(w), args, reply)
+						gotb := get()
+						if cbuf != nil {
+							capv := len(cbuf) - 32
+							for k := capv; k < len(cbuf); k++ {
+								if cbuf[k] != 0xEE {
+									fail("%+v: the library wrote beyond the capacity (%d) of the caller-supplied context buffer", w, capv)
+									break
+								}
+							}
+							if err == nil && c.Codec == "alias" && len(gotb) > 0 {
+								inbuf := capv > 0 && &gotb[0] == &cbuf[0]
+								if (capv >= len(gotb)) != inbuf {
+									fail("%+v: context buffer capacity %d, reply %d bytes: placed in the buffer = %v", w, capv, len(gotb), inbuf)
+								}
+							}
+						}
+						record(w, err, gotb, sent)
 					case "rt":
 						call := &rpc.Call{ServiceMethod: method(w), Args: args, Reply: reply, Done: make(chan *rpc.Call, 1)}
 						cn.RoundTrip(call)
@@ -579,7 +644,7 @@ func runStress(c StressCfg) StressResult {
 					default:
 						call := cn.Go(method(w), args, reply, done)
 						asyncs = append(asyncs, pend{w, sent, get, call})
-						if c.OneAtATime || (!c.CliPipe && r.Intn(3) == 0) {
+						if c.OneAtATime || (!c.CliPipe && flush) {
 							for range asyncs {
 								<-done
 							}
@@ -619,6 +684,84 @@ func runStress(c StressCfg) StressResult {
 	case <-wdone:
 	case <-time.After(120 * time.Second):
 		fail("workload did not finish within 120 s (callers blocked)")
+	}
+	for k, cc := range c.CtxCases {
+		capv, ln, want := cc[0], cc[1], cc[2] == 1
+		w := wcall{Conn: 0, Gor: 61000, Idx: k, Size: ln}
+		p := w.payload(c.Seed + 7)
+		cbuf := make([]byte, capv+32)
+		for j := range cbuf {
+			cbuf[j] = 0xEE
+		}
+		cctx := context.WithValue(context.Background(), rpc.BufferContextKey, cbuf[:0:capv])
+		args, _ := newMsg(p)
+		reply, get := newMsg(nil)
+		err := conns[0].CallWithContext(cctx, method(wcall{Method: "Echo"}), args, reply)
+		sentMu.Lock()
+		sentCount[string(p)]++
+		sentMu.Unlock()
+		got := get()
+		if err != nil || !bytes.Equal(got, transform(p)) {
+			fail("context-buffer case cap=%d len=%d: call failed or wrong reply: %v (%d bytes)", capv, ln, err, len(got))
+			continue
+		}
+		for j := capv; j < len(cbuf); j++ {
+			if cbuf[j] != 0xEE {
+				fail("context-buffer case cap=%d len=%d: bytes beyond the buffer's capacity were written", capv, ln)
+				break
+			}
+		}
+		if c.Codec == "alias" {
+			for j := ln; j < capv; j++ {
+				if cbuf[j] != 0xEE {
+					fail("context-buffer case cap=%d len=%d: bytes of the caller's buffer beyond the reply were written", capv, ln)
+					break
+				}
+			}
+			if ln > 0 {
+				in := capv > 0 && &got[0] == &cbuf[0]
+				if in != want {
+					fail("context-buffer case cap=%d len=%d: reply placed in the caller's buffer = %v, the placement rule says %v", capv, ln, in, want)
+				}
+			}
+		}
+	}
+	if c.Retain {
+		// further traffic of the same size classes on every connection churns the pools, then everything kept is compared again
+		for ci, cn := range conns {
+			for k := 0; k < 40; k++ {
+				w := wcall{Conn: ci, Gor: 60000, Idx: k, Size: c.Sizes[k%len(c.Sizes)]}
+				p := w.payload(c.Seed + 99)
+				args, _ := newMsg(p)
+				reply, _ := newMsg(nil)
+				cn.Call(method(wcall{Method: "Echo"}), args, reply)
+				sentMu.Lock()
+				sentCount[string(p)]++
+				sentMu.Unlock()
+			}
+		}
+		omu.Lock()
+		for i := range keptReplies {
+			if string(keptReplies[i]) != keptCopies[i] {
+				fail("a reply kept by the caller (%d bytes) was modified by later traffic", len(keptCopies[i]))
+				break
+			}
+		}
+		for i := range keptErrs {
+			if keptErrs[i].Error() != keptErrTxt[i] {
+				fail("the text of an error kept by the caller (%d bytes) was modified by later traffic", len(keptErrTxt[i]))
+				break
+			}
+		}
+		omu.Unlock()
+		svc.mu.Lock()
+		for i := range svc.keep {
+			if string(svc.keep[i]) != svc.keepSum[i] {
+				fail("request arguments kept by a handler (%d bytes, NoCopy off) were modified by later traffic", len(svc.keepSum[i]))
+				break
+			}
+		}
+		svc.mu.Unlock()
 	}
 	// server side oracle
 	svc.mu.Lock()
@@ -761,6 +904,12 @@ func (s *StressSvc) Chat(st *SStream) error {
 		if err := st.Read(nil, &m); err != nil {
 			return err
 		}
+		if s.retain {
+			s.mu.Lock()
+			s.keep = append(s.keep, m.B)
+			s.keepSum = append(s.keepSum, string(m.B))
+			s.mu.Unlock()
+		}
 		if err := st.Write(&Blob{B: transform(m.B)}); err != nil {
 			return err
 		}
@@ -782,6 +931,8 @@ type StreamScenario struct {
 	End       string `json:"end"` // close (client closes every stream) / drop (client drops the connection) / half (closes one, drops the rest)
 	Frag      int    `json:"frag"`
 	Seed      int64  `json:"seed"`
+	Codec     string `json:"codec"`  // "" (pb) / alias
+	Retain    bool   `json:"retain"` // both ends keep every stream message they read and compare after the traffic (C11)
 }
 
 func runStreamScenario(c StreamScenario) StressResult {
@@ -794,6 +945,10 @@ func runStreamScenario(c StreamScenario) StressResult {
 	}
 	svc := newStressSvc()
 	svc.pushFirst = c.PushFirst
+	svc.retain = c.Retain
+	var kmu sync.Mutex
+	var kept [][]byte
+	var keptSum []string
 	server := rpc.NewServer()
 	server.SetLogLevel(rpc.OffLogLevel)
 	server.RegisterName("S", svc)
@@ -803,6 +958,9 @@ func runStreamScenario(c StreamScenario) StressResult {
 	fs := &fragSocket{seed: c.Seed, maxChunk: c.Frag, readers: c.Readers}
 	addr := sockPath("ss")
 	opts := &rpc.Options{NewCodec: rpc.NewPBCodec}
+	if c.Codec == "alias" {
+		opts.NewCodec = func() rpc.Codec { return aliasCodec{} }
+	}
 	if c.Network == "frag" {
 		opts.NewSocket = func(*tlsConfigT) socket.Socket { return fs }
 	} else {
@@ -869,6 +1027,12 @@ func runStreamScenario(c StreamScenario) StressResult {
 							fail("stream %d: echo never arrived: %v", i, err)
 							return
 						}
+						if c.Retain {
+							kmu.Lock()
+							kept = append(kept, m.B)
+							keptSum = append(keptSum, string(m.B))
+							kmu.Unlock()
+						}
 						if !bytes.Equal(m.B, transform(sent[0])) {
 							fail("stream %d: message is not the echo of what this stream sent (lost, duplicated, reordered or from another stream): got %d bytes %x want %x", i, len(m.B), head(m.B), head(transform(sent[0])))
 							return
@@ -908,6 +1072,28 @@ func runStreamScenario(c StreamScenario) StressResult {
 		fail("stream workload did not finish (blocked)")
 	}
 	res.Calls = c.Streams*(c.Msgs+c.PushFirst) + c.Unary
+	if c.Retain {
+		for k := 0; k < 30; k++ { // pool churn
+			var rep Blob
+			conn.Call("S.Echo", &Blob{B: wcall{Conn: 9, Idx: k, Size: 30 + 10*k}.payload(c.Seed)}, &rep)
+		}
+		kmu.Lock()
+		for i := range kept {
+			if string(kept[i]) != keptSum[i] {
+				fail("a stream message kept by the client reader (%d bytes) was modified by later traffic", len(keptSum[i]))
+				break
+			}
+		}
+		kmu.Unlock()
+		svc.mu.Lock()
+		for i := range svc.keep {
+			if string(svc.keep[i]) != svc.keepSum[i] {
+				fail("a stream message kept by the stream handler (%d bytes, NoCopy off) was modified by later traffic", len(svc.keepSum[i]))
+				break
+			}
+		}
+		svc.mu.Unlock()
+	}
 	// ---- the end: every handler must return
 	waitStarted := time.Now().Add(2 * time.Second)
 	for atomic.LoadInt64(&chatStarted)-started0 < int64(c.Streams) && time.Now().Before(waitStarted) {
